@@ -75,6 +75,22 @@ def bound(b, grid):
     return tstamp(b['i'], grid) + step * b.get('off', 0)
 
 
+def flavour(t, how):
+    """the same instant as the caller may hold it: datetime (default), pandas Timestamp, numpy datetime64, ISO text, date (midnight only)"""
+    import pandas as pd
+    if t is None or not how:
+        return t
+    if how == 'Timestamp':
+        return pd.Timestamp(t)
+    if how == 'dt64':
+        return np.datetime64(t)
+    if how == 'str':
+        return t.isoformat()
+    if how == 'date' and t == datetime.datetime(t.year, t.month, t.day):
+        return t.date()
+    return t
+
+
 def run_slice(case, ctx):
     import pandas as pd
     from pyg_base import df_slice
@@ -103,10 +119,13 @@ def run_slice(case, ctx):
     else:
         lb, ub = bound(case['lb'], grid), bound(case['ub'], grid)
         eff = oc or '(]'
+        lb_arg, ub_arg = flavour(lb, case.get('lbf')), flavour(ub, case.get('ubf'))
         if case.get('tuple_form') and lb is not None and ub is not None:
-            st, res = ctx.call(df_slice, x, (lb, ub), None, eff)
+            st, res = ctx.call(df_slice, x, (lb_arg, ub_arg), None, eff)
         else:
-            st, res = ctx.call(df_slice, x, lb, ub, oc) if oc else ctx.call(df_slice, x, lb, ub)
+            st, res = ctx.call(df_slice, x, lb_arg, ub_arg, oc) if oc else ctx.call(df_slice, x, lb_arg, ub_arg)
+        if case.get('lbf') or case.get('ubf'):
+            ctx.cls('bound_flavours:%s/%s' % (case.get('lbf'), case.get('ubf')))
         keep = [(t, r) for t, r in before if inside(t, lb, ub, eff)]
         mon = 'slice_rows_model'
         what = 'df_slice(ts, %s, %s, %r)' % (lb, ub, oc)
@@ -272,7 +291,11 @@ def gen_case(rng):
         lb, ub = gen_bound(rng, ts, grid, span), gen_bound(rng, ts, grid, span)
         if rng.random() < 0.12 and lb is not None:
             ub = dict(lb)    # degenerate window lb == ub
-        return {'kind': 'slice', 'grid': grid, 'x': spec, 'lb': lb, 'ub': ub, 'oc': rng.choice(['()', '(]', '[)', '[]', None, 'oc', 'cc']), 'tuple_form': rng.random() < 0.1, 'future': rng.random() < 0.25}
+        case = {'kind': 'slice', 'grid': grid, 'x': spec, 'lb': lb, 'ub': ub, 'oc': rng.choice(['()', '(]', '[)', '[]', None, 'oc', 'cc']), 'tuple_form': rng.random() < 0.1, 'future': rng.random() < 0.25}
+        if rng.random() < 0.3:
+            case['lbf'] = rng.choice([None, 'Timestamp', 'dt64', 'str', 'date'])
+            case['ubf'] = rng.choice([None, 'Timestamp', 'dt64', 'str', 'date'])
+        return case
     if r < 0.7:
         ts = sorted(rng.sample(range(72), rng.randint(1, 30)))
         spec = {'ts': ts, 'cols': [[float(next(ids)) for _ in ts]], 'frame': rng.random() < 0.3}
